@@ -12,7 +12,7 @@ RULE = ("every undirected graph on n <= 5 (thorough 6) labelled nodes, as a symm
         "linkage at t with the components of the max_edits=t neighbour graph; non-trivial = at least one edge")
 ASSUMPTIONS = ["SciPy linkage/fcluster and igraph community detection are the trusted base named by the property; community variants are only required to stay inside connected components",
                "rapidfuzz cdist workers=-1 answered with one thread"]
-REQUIRED_CLASSES = {"all": ["empty-neighbour-list", "isolated-node", "distance-0-edge", "float-distances", "string-labels", "series-labels", "tcr-table", "single-linkage-identity"]}
+REQUIRED_CLASSES = {"all": ["empty-neighbour-list", "isolated-node", "distance-0-edge", "float-distances", "string-labels", "series-labels", "tcr-table", "single-linkage-identity", "repeated-node-labels", "empty-linkage_kws"]}
 MIN_OUTCOMES = 10
 SINGLE_THREAD_RAPIDFUZZ = True
 METHODS = ("cc", "fastgreedy", "multilevel", "leiden")
@@ -58,6 +58,9 @@ def spaces(tier):
 
 def _labels(n, spell):
     import pandas as pd
+    if spell == "repeated":
+        # labels need not be unique (donor, V gene, epitope ...): two nodes may carry the same label
+        return ["d%d" % (i % 2) for i in range(n)]
     if spell == "list":
         return ["n%d" % i for i in range(n)]
     if spell == "ints":
@@ -76,7 +79,9 @@ def _check_clustering(acc, case, triplets, n, edges, tag):
         acc.cls("isolated-node")
     if not triplets:
         acc.cls("empty-neighbour-list")
-    for spell in ("list", "ints", "series"):
+    for spell in ("list", "ints", "series", "repeated"):
+        if spell == "repeated":
+            acc.cls("repeated-node-labels")
         if spell == "list":
             acc.cls("string-labels")
         if spell == "series":
@@ -92,8 +97,15 @@ def _check_clustering(acc, case, triplets, n, edges, tag):
             try:
                 node_col = "node" if "node" in r.columns else r.columns[0]
                 got = {}
-                for node, cl in zip(r[node_col].tolist(), r["cluster"].tolist()):
-                    got.setdefault(cl, []).append(lab.index(node))
+                if spell == "repeated":
+                    # labels are ambiguous: rows are identified by their position in the caller's node list (the frame keeps it as index)
+                    for pos_, node, cl in zip(r.index.tolist(), r[node_col].tolist(), r["cluster"].tolist()):
+                        if lab[pos_] != node:
+                            raise ValueError("row %r carries label %r, node list has %r" % (pos_, node, lab[pos_]))
+                        got.setdefault(cl, []).append(pos_)
+                else:
+                    for node, cl in zip(r[node_col].tolist(), r["cluster"].tolist()):
+                        got.setdefault(cl, []).append(lab.index(node))
                 part = sorted(tuple(sorted(v)) for v in got.values())
             except Exception as e:
                 acc.fail(key + "/malformed", case, "frame with node, cluster", repr(r)[:300])
@@ -197,6 +209,16 @@ def check_case(case, acc):
                         acc.fail("single-linkage-vs-neighbour-graph-components", ("hier1", case[1], method, t), comps, partition_of(list(r[1])))
                         return
                     acc.ok()
+        # an empty linkage_kws means SciPy's own defaults (single linkage, no optimal ordering)
+        acc.cls("empty-linkage_kws")
+        for t in (1, 2):
+            r = acc.call(pyrepseq.hierarchical_clustering, seqs, linkage_kws={}, cluster_kws=dict(t=t, criterion="distance"))
+            eL = hc.linkage(dist)
+            eC = hc.fcluster(eL, t=t, criterion="distance")
+            if raised(r) or not np.array_equal(np.asarray(r[0]), eL) or list(r[1]) != list(eC):
+                acc.fail("hierarchical_clustering/list/empty-linkage_kws", ("hier1", case[1], "empty", t), eC.tolist(), r if raised(r) else list(map(int, r[1])))
+                return
+            acc.ok()
         # default arguments: average linkage with optimal ordering, t=6
         r = acc.call(pyrepseq.hierarchical_clustering, seqs)
         eL = hc.linkage(dist, method="average", optimal_ordering=True)
